@@ -452,6 +452,9 @@ class ndarray:
                 _on_read(self.buf, p)
         return [d[p] for p in self._positions()]
 
+    def flush(self):
+        pass
+
     def tolist(self):
         if not self.shape:
             return self._flat()[0]
@@ -1736,11 +1739,16 @@ class _Linalg:
 linalg = _Linalg()
 
 
+_MEMMAP_CONTENT = {}
+
+
 def memmap(filename, dtype=float64, mode="r+", shape=None):
-    from . import os_shim
-    os_shim.FS.open_memmap(filename, mode)
-    r = zeros(shape, dtype)
-    return r
+    """file-backed array on the file-system model: 'w+' creates the file, other modes need it to exist and see its content"""
+    from .misc_shim import FS
+    FS.open_memmap(filename, mode)
+    if "w" in mode or filename not in _MEMMAP_CONTENT:
+        _MEMMAP_CONTENT[filename] = zeros(shape, dtype)
+    return _MEMMAP_CONTENT[filename]
 
 
 def errstate(**kw):
